@@ -83,6 +83,10 @@ def run(ctx):
             if abs(f(c * An) - abs(c) * fa) > slack * (1 + fa) + (1e-13 * fa if name in ('1', 'inf') else 0): viol(f'C15:norm{name}:homogeneous', f'||cA||_{name} != |c| ||A||_{name}', A, f(c * An), abs(c) * fa)
             if f(An + Bn) > fa + fb + slack * (1 + fa + fb) + 1e-12 * (fa + fb): viol(f'C15:norm{name}:triangle', f'triangle inequality violated for ||.||_{name}', A, f(An + Bn), fa + fb)
             if f(utils.quat_matmat(An, Cn)) > fa * fc * (1 + 1e-12) + slack: viol(f'C15:norm{name}:submultiplicative', f'||AB||_{name} > ||A||_{name} ||B||_{name}', A, f(utils.quat_matmat(An, Cn)), fa * fc)
+        from .c02 import rexp_ref
+        sref = float(np.linalg.svd(np.array([[float(v) for v in row] for row in rexp_ref(A)]), compute_uv=False)[0]) if m * n else 0.0
+        for nm2, v2 in (('matrix_norm(2)', utils.matrix_norm(An, 2)), ('spectral_norm_2', utils.spectral_norm_2(An)), ('matrix_norm(A^H, 2)', utils.matrix_norm(utils.quat_hermitian(An), 2))):
+            if abs(float(v2) - sref) > 1e-10 * max(1.0, sref): viol(f'C15:norm2:def:{nm2}', f'{nm2} is not the largest singular value (independent real embedding)', A, v2, sref)
         n2 = utils.matrix_norm(An, 2); nf = fro['matrix_norm(fro)']
         rk = utils.rank(An)
         if n2 > nf * (1 + 1e-12) or nf > math.sqrt(max(rk, 1)) * n2 * (1 + 1e-10) + 1e-12: viol('C15:2-F-rank', '||A||_2 <= ||A||_F <= sqrt(rank) ||A||_2 violated', A, (n2, nf, rk))
